@@ -254,7 +254,11 @@ class _ReusablePoolExecutor(ProcessPoolExecutor):
             ):
                 time.sleep(1e-3)
 
-            self._adjust_process_count()
+            # Spawn under the lock, as submit() does: the executor manager
+            # thread removes timed-out workers from self._processes under
+            # this lock, and _adjust_process_count iterates over that dict.
+            with self._processes_management_lock:
+                self._adjust_process_count()
             # Workers that time out or die while we wait are removed from
             # self._processes by the executor manager thread (or the executor
             # is flagged as broken): look at the current set of workers, not at
